@@ -73,14 +73,19 @@ static void val_print_rec(NanoValue v, FILE *out, const void **path, int depth) 
             }
             break;
         case TAG_ENUM:
-            fprintf(out, "enum(%d)", v.as.enum_val);
+            /* An enum value prints as its integer value, as in compiled programs */
+            fprintf(out, "%d", v.as.enum_val);
             break;
         case TAG_ARRAY:
             if (v.as.array) {
                 fprintf(out, "[");
                 for (uint32_t i = 0; i < v.as.array->length; i++) {
                     if (i > 0) fprintf(out, ", ");
+                    /* String elements are quoted, as in compiled programs: ["x", "y"] */
+                    bool quoted = v.as.array->elements[i].tag == TAG_STRING;
+                    if (quoted) fprintf(out, "\"");
                     val_print_rec(v.as.array->elements[i], out, path, depth + 1);
+                    if (quoted) fprintf(out, "\"");
                 }
                 fprintf(out, "]");
             } else {
